@@ -130,3 +130,23 @@ fn k_ipfix_unknown_field_off() {
     assert!(f.field_type == IPFixField::Unknown);
     assert!(f.parse_as_field_value(&buf[..n]).is_err(), "a field of unknown type was reported as decoded data");
 }
+
+/// B.ipfix.is_valid -- CommonTemplate::is_valid for templates with up to 3 fields: valid iff some field has a
+/// non-zero declared length (what the uninterpreted `tpl_valid` of V.ipfix.flowsetbody stands for; C01's per-record
+/// progress argument needs it)
+#[kani::proof]
+#[kani::unwind(6)]
+fn b_ipfix_is_valid() {
+    let n: usize = kani::any();
+    kani::assume(n <= 3);
+    let l: [u16; 3] = kani::any();
+    let mut fields = Vec::with_capacity(3);
+    let mut k = 0;
+    while k < n {
+        fields.push(TemplateField { field_type_number: 1, field_type: IPFixField::OctetDeltaCount, field_length: l[k], enterprise_number: None });
+        k += 1;
+    }
+    let t = Template { template_id: 256, field_count: n as u16, fields, padding: vec![] };
+    let want = (n >= 1 && l[0] > 0) || (n >= 2 && l[1] > 0) || (n >= 3 && l[2] > 0);
+    assert!(t.is_valid() == want);
+}
